@@ -69,7 +69,14 @@ def run(prog: Program, rep: Report, tier: str) -> None:
 
         # recognised skeleton = a conjunction of comparisons of the length / of the leading digits with constants; then
         # every deviation is a violation.  Any other conjunct makes the gate a form this rule does not compare.
-        foreign_conj = [x for x in conjs if not is_head_test(x) and not all(is_len_test(d) for d in flatten(x, "or"))]
+        def only_known_atoms(x: Any) -> bool:
+            if isinstance(x, tuple) and x[:1] in (("and",), ("or",)):
+                return all(only_known_atoms(y) for y in x[1:])
+            if isinstance(x, tuple) and x[:1] == ("not",) and len(x) == 2:
+                return only_known_atoms(x[1])
+            return is_head_test(x) or is_len_test(x)
+
+        foreign_conj = [x for x in conjs if not only_known_atoms(x)]
         if foreign_conj:
             rep.undecided("R6.1", "gate normal form", where, f"gate is {T.show(gate_cond)[:300]}: the conjunct {T.show(foreign_conj[0])[:120]} is neither a test of the length nor of the leading bytes; "
                                                               f"whether the gate equals hex(m)[0:4] == 'fef0' and len(m) in {{165,168,159}} is not decided by comparing normal forms")
